@@ -169,7 +169,7 @@ def run_history(py7zr, hist, workdir, *, target="path", filters_by_session=None,
         trace.append({"e": "base", "members": first["members"], "metas": first["metas"],
                       "refmetas": first["ref"]["metas"] if first["ref"].get("present") and first["ref"].get("ok") else []})
         sess = 1
-    if target == "stream":
+    if target.startswith("stream"):
         stream = io.BytesIO(open(arc_path, "rb").read() if base is not None else b"")
     ncalls = 0
     for h in hist:
@@ -183,8 +183,12 @@ def run_history(py7zr, hist, workdir, *, target="path", filters_by_session=None,
                 kw["filters"] = filt
             if password is not None:
                 kw["password"] = password
-            if target == "stream":
-                stream.seek(0)
+            if target.startswith("stream"):
+                # where the caller's stream stands when the session opens: rewound, wherever the last session (or nobody) left it, at its end
+                if target == "stream":
+                    stream.seek(0)
+                elif target == "stream-end":
+                    stream.seek(0, 2)
                 z = py7zr.SevenZipFile(stream, mode, **kw)
             else:
                 z = py7zr.SevenZipFile(arc_path, mode, **kw)
@@ -308,7 +312,7 @@ def run_history(py7zr, hist, workdir, *, target="path", filters_by_session=None,
             except Exception as e:  # noqa
                 cexc = type(e).__name__ + ":" + str(e)[:80]
             trace.append({"e": "close", "exc": cexc})
-            if target == "stream":
+            if target.startswith("stream"):
                 raw = stream.getvalue()
             else:
                 raw = open(arc_path, "rb").read()
